@@ -79,3 +79,8 @@ Proof. eexists. vm_compute. split; reflexivity. Qed.
 Example C27_example_stats_count :
   snd (decode ([3; 0; 0; 0; 52; 1] ++ repeat 0 42 ++ [255; 255; 255; 255])) = 0.
 Proof. vm_compute. reflexivity. Qed.
+(* ... and so is a count of 2^30, whose 4-fold is 0 modulo 2^32: the check multiplies in 64 bits *)
+Example C27_example_stats_count_wrap :
+  snd (decode ([3; 0; 0; 0; 52; 1] ++ repeat 0 42 ++ [64; 0; 0; 0])) = 0 /\
+  snd (decode ([3; 0; 0; 0; 56; 1] ++ repeat 0 42 ++ [64; 0; 0; 1; 0; 1; 0; 0])) = 0.
+Proof. vm_compute. split; reflexivity. Qed.
